@@ -928,6 +928,9 @@ void sim_answer_query(struct sim *s, uint8_t qtype, uint8_t qver, uint16_t qsess
 	}
 	size_t base = s->delivered_total + (s->in_len - s->in_pos);
 	bool first_pending = s->first_pdu_pending;
+
+	ex->resp_off = base; /* also for answers that consist of nothing (silence, hanging up) */
+	ex->resp_len = 0;
 	uint8_t *stream = NULL;
 	size_t slen = 0;
 
